@@ -22,7 +22,7 @@ SPEC = {
     "suites": [
         Suite(name="approval", harness="vh_approval", runner="approval",
               model_deps=["theories/Model/Approval.vo"],
-              quick_n=1200, thorough_n=16000, rewrite=build_helpers,
+              quick_n=1000, thorough_n=16000, rewrite=build_helpers,
               rule="each case: one generated configuration (1-4 programs, duplicate entries, damaged bucket syntax, "
                    "stacks named like counters) and 1-3 counter files over 1-3 builds differing in one identity field; in 35% of the cases "
                    "instead 2-3 DIFFERENT programs whose approved builds recorded counters and stacks of the SAME "
@@ -36,7 +36,12 @@ SPEC = {
                    "(b) 2-4 single-item perturbations of that report (added counter / stack / cross-named item, one "
                    "identity field changed, invalid Week, invalid or unusual semver Config, X in {0,-0,denormal}, or "
                    "none) are judged the same way and the uploader's report is POSTed once more, verbatim, after them (all "
-                   "requests of a run go to one server process; the oracle judges the HANDLER's status); (c) the real viewer through the functions its index page is built from: files(dir, cfg) on the "
+                   "requests of a run go to one server process; the oracle judges the HANDLER's status); a fifth of "
+                   "the perturbed requests are raw BODIES whose JSON text says more than its decoding (duplicated "
+                   "Programs member with a build outside the configuration first, duplicated members inside a "
+                   "program entry, members outside the report format); for every request the object the handler "
+                   "stored is read back from the bucket and its TEXT (first of duplicated members, merged "
+                   "duplicates) judged by stored_check; (c) the real viewer through the functions its index page is built from: files(dir, cfg) on the "
                    "directory holding the count files (summary text, ActiveMeta, Active flags of every file) and "
                    "reports(dir, cfg) on the local (unfiltered) and on the upload report the real uploader wrote "
                    "(per-program summary, judged by viewer_report_check: set verdict, no approved item called "
@@ -69,7 +74,7 @@ SPEC = {
                   "one excluded; its oracle accepts the model; "
                   "sequences: the answer of the upload handler to a request and the viewer page for a configuration "
                   "version in any sequence of requests are those of that request alone (any permutation of concurrent "
-                  "requests gives each its own answer); Charts (after fix c8e437d): a chart is shown as present iff a configured counter "
+                  "requests gives each its own answer); the stored object is the validated report (within the configuration, no other member); Charts (after fix c8e437d): a chart is shown as present iff a configured counter "
                   "belongs to it or a configured stack has its name, never absent when it draws an approved counter "
                   "or an approved stack; the chart oracle accepts the model. The models are tied to the code by differential execution against "
                   "the real createReport, validate, handleUpload, summary and newCounterFile.",
